@@ -909,12 +909,19 @@ End Expand.
 
 (* ------------------------------------------------------------------------- *)
 (* Part 4: the printer                                                        *)
+(* strings and quoted symbols: no two dots in a row (a single dot also at the
+   end: the closing quote follows).  Only three dots in a row are misread by
+   the checker (finding ellipsis-in-string-before-range, D28); two are excluded
+   with them because the lemma on the checker's search (find_ell_skip) is
+   stated for texts in which a dot is followed by another character. *)
+Definition sdotsv (s : list Z) : Prop := sdots (s ++ [34]).
+
 Definition goodc0 (v : av) : Prop :=
   match v with
   | VI i => small_k KI i | VH h => small_k KH h | VC c => small_k KC c
   | VT | VF | VN | VInf => True
-  | VS s => nonul s /\ nodot s
-  | VSym s => nonul s /\ sym_plain s = false /\ nodot s
+  | VS s => nonul s /\ sdotsv s
+  | VSym s => nonul s /\ sym_plain s = false /\ sdotsv s
   | VM a b c d => good_midi a b c d
   | VR v => good_rgba v
   | _ => False
@@ -1092,6 +1099,60 @@ Proof.
   cbn [andb negb]. destruct (c =? 34); intros H; inversion H; lia.
 Qed.
 
+(* the text of a quoted string keeps the property: a line break between two
+   characters and the escapes bring no dots *)
+Lemma print_chars_hd ll c s cols X : c <> 46 ->
+  exists x r, fst (print_chars false ll (c :: s) cols) ++ X = x :: r /\ x <> 46.
+Proof.
+  intros Hc. cbn [print_chars negb andb].
+  destruct (ll - 3 <? cols); destruct (as_escaped_char c false) as [e|]; try destruct (e =? 110);
+    repeat match goal with
+           | |- context [print_chars false ll s ?k] => destruct (print_chars false ll s k) as [? ?]
+           end; cbn [fst app brk]; eexists _, _; (split; [reflexivity|lia]).
+Qed.
+
+Lemma sdots_inv_dot l : sdots (46 :: l) -> exists c r, l = c :: r /\ c <> 46 /\ sdots (c :: r).
+Proof. intros H. inversion H; subst; [congruence|eauto]. Qed.
+Lemma sdots_inv_other c l : sdots (c :: l) -> c <> 46 -> sdots l.
+Proof. intros H Hc. inversion H; subst; [assumption|congruence]. Qed.
+
+Lemma print_chars_sdots ll s : forall cols, sdots (s ++ [34]) -> sdots (fst (print_chars false ll s cols) ++ [34]).
+Proof.
+  induction s as [|c s IH]; intros cols Hs; [exact Hs|].
+  assert (Hb : sdots brk) by (apply nodot_sdots; repeat constructor; lia).
+  cbn [app] in Hs. destruct (Z.eq_dec c 46) as [->|Hc].
+  2: { (* no dot: break, character or escape, the rest *)
+    pose proof (sdots_inv_other _ _ Hs Hc) as Hs'.
+    cbn [print_chars negb andb].
+    destruct (ll - 3 <? cols); destruct (as_escaped_char c false) as [e|] eqn:Ee;
+      try (pose proof (esc_str_ne _ _ Ee)); try destruct (e =? 110);
+      repeat match goal with
+             | |- context [print_chars false ll s ?k] =>
+                 let H := fresh "Hk" in pose proof (IH k Hs') as H; destruct (print_chars false ll s k) as [? ?]
+             end; cbn [fst] in *; rewrite <- ?app_assoc;
+      repeat (apply sdots_app; [first [exact Hb|apply nodot_sdots; repeat constructor; lia]|]); assumption. }
+  (* a dot: the next character is no dot *)
+  destruct (sdots_inv_dot _ Hs) as (c1 & r1 & E & Hc1 & Hs').
+  - destruct s as [|c' s']; cbn [app] in E.
+    + inversion E; subst. cbn [print_chars negb andb]. change (as_escaped_char 46 false) with (@None Z).
+      destruct (ll - 3 <? cols); cbn [fst app]; rewrite <- ?app_assoc;
+        [apply sdots_app; [exact Hb|]|]; cbn [app]; (apply sd_dot; [lia|repeat constructor; lia]).
+    + inversion E; subst c1 r1.
+      assert (Hnext : forall k, exists x r, fst (print_chars false ll (c' :: s') k) ++ [34] = x :: r /\ x <> 46 /\
+                                           sdots (x :: r)).
+      { intros k. destruct (print_chars_hd ll c' s' k [34] Hc1) as (x & r & Ex & Hx).
+        exists x, r. split; [exact Ex|]. split; [exact Hx|]. rewrite <- Ex. apply IH. exact Hs'. }
+      set (s2 := c' :: s') in *.
+      cbn [print_chars negb andb]. change (as_escaped_char 46 false) with (@None Z).
+      destruct (ll - 3 <? cols).
+      * destruct (Hnext (5 + 1)) as (x & r & Ex & Hx & Hsx).
+        destruct (print_chars false ll s2 (5 + 1)) as [t1 k1]. cbn [fst] in *.
+        rewrite <- !app_assoc. apply sdots_app; [exact Hb|]. cbn [app]. rewrite Ex. now apply sd_dot.
+      * destruct (Hnext (cols + 1)) as (x & r & Ex & Hx & Hsx).
+        destruct (print_chars false ll s2 (cols + 1)) as [t1 k1]. cbn [fst] in *.
+        cbn [app]. rewrite Ex. now apply sd_dot.
+Qed.
+
 Lemma print_chars_nodot ll s : forall cols, nodot s -> nodot (fst (print_chars false ll s cols)).
 Proof.
   induction s as [|c s IH]; intros cols Hs; [constructor|].
@@ -1121,28 +1182,29 @@ Variables dec2f dec2d : list Z -> Z.
 
 Lemma goodc0_tok o v cols t w c :
   goodc0 v -> print_scalar o v cols = Some (t, w, c) ->
-  tokof dec2f dec2d v t /\ nodot t /\ w = len t.
+  tokof dec2f dec2d v t /\ sdots t /\ w = len t.
 Proof.
   intros Hg Hp. destruct (scalar_tok dec2f dec2d o v cols t w c (goodc0_good v Hg) Hp) as [Htk Hw].
   split; [exact Htk|]. split; [|exact Hw].
   destruct v; cbn [goodc0] in Hg; try contradiction; cbn in Hp.
-  - inversion Hp; subst. exact (proj1 (tok_k_chars KI i Hg)).
-  - inversion Hp; subst. exact (proj1 (tok_k_chars KH h Hg)).
-  - inversion Hp; subst. exact (proj1 (tok_k_chars KC c0 Hg)).
-  - inversion Hp; subst. repeat constructor; lia.
-  - inversion Hp; subst. repeat constructor; lia.
-  - inversion Hp; subst. repeat constructor; lia.
-  - inversion Hp; subst. repeat constructor; lia.
+  - inversion Hp; subst. exact (nodot_sdots _ (proj1 (tok_k_chars KI i Hg))).
+  - inversion Hp; subst. exact (nodot_sdots _ (proj1 (tok_k_chars KH h Hg))).
+  - inversion Hp; subst. exact (nodot_sdots _ (proj1 (tok_k_chars KC c0 Hg))).
+  - inversion Hp; subst. apply nodot_sdots. repeat constructor; lia.
+  - inversion Hp; subst. apply nodot_sdots. repeat constructor; lia.
+  - inversion Hp; subst. apply nodot_sdots. repeat constructor; lia.
+  - inversion Hp; subst. apply nodot_sdots. repeat constructor; lia.
   - destruct Hg as [_ Hnd]. unfold print_string in Hp. cbn [andb] in Hp.
-    pose proof (print_chars_nodot (linelength o) s (cols + 1) Hnd) as Hb.
+    pose proof (print_chars_sdots (linelength o) s (cols + 1) Hnd) as Hb.
     destruct (print_chars false (linelength o) s (cols + 1)) as [body c1]. inversion Hp; subst. cbn [fst] in Hb.
-    constructor; [lia|]. apply Forall_app. split; [assumption|repeat constructor; lia].
+    apply sd_other; [lia|exact Hb].
   - destruct Hg as (_ & Hpl & Hnd). unfold print_string in Hp. rewrite Hpl in Hp. cbn [andb] in Hp.
-    pose proof (print_chars_nodot (linelength o) s (cols + 1) Hnd) as Hb.
+    pose proof (print_chars_sdots (linelength o) s (cols + 1) Hnd) as Hb.
     destruct (print_chars false (linelength o) s (cols + 1)) as [body c1]. inversion Hp; subst. cbn [fst] in Hb.
-    constructor; [lia|]. apply Forall_app. split; [assumption|repeat constructor; lia].
-  - inversion Hp; subst. repeat constructor; try lia; apply hexdig_ne46.
-  - inversion Hp; subst. repeat constructor; try lia; apply hexdig_ne46.
+    apply sd_other; [lia|]. change (body ++ [34; 83]) with (body ++ [34] ++ [83]). rewrite app_assoc.
+    apply sdots_app; [exact Hb|apply nodot_sdots; repeat constructor; lia].
+  - inversion Hp; subst. apply nodot_sdots. repeat constructor; try lia; apply hexdig_ne46.
+  - inversion Hp; subst. apply nodot_sdots. repeat constructor; try lia; apply hexdig_ne46.
 Qed.
 
 Lemma goodc_tok o zf zd v cols t w c :
@@ -1150,7 +1212,7 @@ Lemma goodc_tok o zf zd v cols t w c :
   tokof dec2f dec2d v t /\ sdots t /\ w = len t.
 Proof.
   intros [Hg|[Hg|[Hl Hg]]] Hp.
-  - destruct (goodc0_tok o v cols t w c Hg Hp) as (A & B & C). split; [exact A|]. split; [now apply nodot_sdots|exact C].
+  - exact (goodc0_tok o v cols t w c Hg Hp).
   - destruct v; cbn [goodx] in Hg; try contradiction; cbn [print_scalar] in Hp.
     + (* a bare symbol *)
       destruct (sym_plain_facts s Hg) as (c0 & r0 & Es & Hc0 & Hs & _).
